@@ -11,6 +11,9 @@
 #include "util.h"
 #include "bigint.h"
 #include "int.h"
+#ifdef ALDOR_VERIF
+#include "verifhook.h"
+#endif
 
 /*****************************************************************************
  *
@@ -26,6 +29,9 @@ void
 exitSuccess(void)
 {
 	(*exitHandler)(EXIT_SUCCESS);
+#ifdef ALDOR_VERIF
+	VERIF_EVENT(("{\"ev\":\"Exit\",\"status\":%d,\"via\":\"exitSuccess\"}", EXIT_SUCCESS));
+#endif
 	osExit(EXIT_SUCCESS);
 }
 
@@ -33,6 +39,9 @@ void
 exitFailure(void)
 {
 	(*exitHandler)(EXIT_FAILURE);
+#ifdef ALDOR_VERIF
+	VERIF_EVENT(("{\"ev\":\"Exit\",\"status\":%d,\"via\":\"exitFailure\"}", EXIT_FAILURE));
+#endif
 	osExit(EXIT_FAILURE);
 }
 
